@@ -480,7 +480,7 @@ func cmdCheck(args []string) int {
 		fmt.Printf("no harness for property %s\n", prop)
 		return 2
 	}
-	ld, err := load(only)
+	ld, err := load(nil)
 	if err != nil {
 		fmt.Println("load error:", err)
 		return 2
@@ -691,9 +691,7 @@ func runNative(ld *loaded, pkgDir, casesFile, outDir string) (map[int]string, st
 	}
 	repl := map[string]string{}
 	for v, r := range ld.overlay {
-		if strings.HasPrefix(v, filepath.Join(repoDir, pkgDirToPath(pkgDir))+"/") {
-			repl[v] = r
-		}
+		repl[v] = r // harnesses may use exported helpers of other packages' harness files
 	}
 	repl[filepath.Join(repoDir, pkgDirToPath(pkgDir), "zz_verif_replay_test.go")] = testFile
 	ovb, _ := json.Marshal(map[string]interface{}{"Replace": repl})
@@ -744,7 +742,7 @@ func cmdReplay(args []string) int {
 	if len(cases) == 0 {
 		return 2
 	}
-	ld, err := load(map[string]bool{cases[0].PkgDir: true})
+	ld, err := load(nil)
 	if err != nil {
 		fmt.Println("load error:", err)
 		return 2
